@@ -694,6 +694,45 @@ class Extractor:
             return node
         return s
 
+    def loop_body(self, loop):
+        """`continue` as the last statement of an `if` branch that stands directly in the loop body (not inside a
+        try/with/inner loop) only skips the rest of the body:  `if T: A; continue` REST  is read as
+        `if T: A` / `else: REST` (likewise for a `continue` ending the else branch); a `continue` that ends the body
+        itself is dropped.  Any other `continue` stays `unsupported`.  One rewrite per loop (oracle ids are per node)."""
+        if id(loop) in self.desugared:
+            return self.desugared[id(loop)]
+
+        def rewrite(stmts):
+            stmts = list(stmts)
+            if stmts and isinstance(stmts[-1], ast.Continue):
+                stmts = stmts[:-1]
+            for i, st in enumerate(stmts):
+                if not isinstance(st, ast.If):
+                    continue
+                b_cont = bool(st.body) and isinstance(st.body[-1], ast.Continue)
+                e_cont = bool(st.orelse) and isinstance(st.orelse[-1], ast.Continue)
+                if not (b_cont or e_cont):
+                    continue
+                rest = stmts[i + 1:]
+                new = copy.copy(st)
+                nb = list(st.body[:-1]) if b_cont else list(st.body) + rest
+                ne = list(st.orelse[:-1]) if e_cont else list(st.orelse) + rest
+                if b_cont and e_cont:
+                    rest = []
+                new.body = rewrite(nb)
+                new.orelse = rewrite(ne)
+                if not new.body:
+                    p = ast.Pass()
+                    ast.copy_location(p, st)
+                    new.body = [p]
+                self.synth.append(new)
+                return stmts[:i] + [new]
+            return stmts
+
+        out = rewrite(loop.body)
+        self.desugared[id(loop)] = out
+        return out
+
     def open_in_try(self, ctx, s):
         """`h = None` ... `try: h = open(..); REST finally: if h [is not None]: h.close()`  (no handlers): the same
         as `h = open(..)` followed by `try: REST finally: h.close()` -- when the open raises nothing is open and the
@@ -812,7 +851,7 @@ class Extractor:
                 items += head
             if s.orelse:
                 items.append(("unsupported", site))
-            body = self.seq(self.block(ctx, s.body) + (head if isinstance(s, ast.While) else []))
+            body = self.seq(self.block(ctx, self.loop_body(s)) + (head if isinstance(s, ast.While) else []))
             if body == ("skip",):
                 return items
             return items + [("loop", self.oid(s, "loop"), body)]
@@ -887,7 +926,15 @@ class Extractor:
                 fin = self.seq(self.block(ctx, s.finalbody))
                 r = ("tryFinally", site, r, fin)
             return ([("unsupported", site)] if bad else []) + [r]
-        # break / continue / delete / match / async / anything else
+        if isinstance(s, ast.Delete):
+            # `del name[...]` / `del obj.attr`: no call; can raise; a deletion through a file-layer object is a call
+            site = self.site(ctx, s, what="Delete")
+            if any(self.is_tracked_expr(ctx, t) for t in s.targets):
+                return [self.opaque(ctx, s, site, "export")]
+            if any(root_name(t) in ctx.doc for t in s.targets):
+                return [("unsupported", site)]
+            return [("mayRaise", self.oid(s, "del"), site)]
+        # break / other continue / match / async / anything else
         site = self.site(ctx, s, what=type(s).__name__)
         return [("unsupported", site), self.opaque(ctx, s, site, "export")]
 
